@@ -7,7 +7,7 @@ oracle: brute-force shadow inside harness.cpp / harness_idx.cpp (independent of 
 import os, re, sys
 sys.path.insert(0, os.path.dirname(os.path.abspath(__file__)))
 
-GEN = ['gen_log2.json', 'gen_segments.json']
+GEN = ['gen_log2.json', 'gen_segments.json', 'gen_multihash_ops.json']
 VARIANTS = [0, 1, 2, 3]
 UNIQ_MENU = [[0], [0, 3], [1, 2]]          # (id) (id,c) (a,b)
 MULTI_MENU = [[2], [3], [2, 3], [1, 2]]    # (b) (c) (b,c) (a,b)
